@@ -485,9 +485,9 @@ def run(ctx):
         if big and ctx.tier == "quick":
             continue
         process(ctx, [(text, "document", "fixture")], all_indents=not big)
-    rounds = ctx.n(6, 40)
+    rounds = ctx.n(30, 300)
     for i in range(rounds):
-        if ctx.time_left() < 0.25 * t_end and ctx.tier == "quick" or ctx.out_of_time():
+        if ctx.time_left() < 0.3 * t_end or ctx.out_of_time():
             ctx.notes.append("C03_print: stopped after %d/%d rounds (time)" % (i, rounds))
             break
         batch = []
